@@ -79,7 +79,10 @@ EVERY_CONSTRUCT = (
 )
 PROBLEM = ["[b-a]", "a{2,1}", "[z-a]x", "(a{3,2})", "[a-c-e]", "a{,2}", "a{}", "a{1", "a**", "(", ")", "(a", "a)", "[", "[]", "[a", "\\", "\\q",
            "\\x4", "\\xZZ", "\\p{Foo}", "\\p{L", "[:digit", "a|b|", "ab)", "a\\/b", "a\nb", "a\tb", "é", "aé", "[é]", "", "+", "?a", "{1}",
-           "a{1,2,3}", "a{1}{2}", "a+?+", "[^]", "[a-]", "[-a]", "[]a]", "a\\"]
+           "a{1,2,3}", "a{1}{2}", "a+?+", "[^]", "[a-]", "[-a]", "[]a]", "a\\",
+           # every pair of small bounds, the upper one written with and without leading zeros: min > max must be named whatever the numbers
+           ] + ["a{%d,%s}" % (lo, hi) for lo in (0, 1, 2, 3, 10, 12) for hi in ("0", "00", "1", "2", "9", "10", "11")] + [
+           "(ab|c){2,0}?", "a|b{7,0}c", "[0-9]{12,00}", "x{1,0}y", "(x{3,0})"]
 
 
 # a backslash before every printable ASCII character, alone and inside a bracket group: every escape the documentation
